@@ -181,6 +181,9 @@ def _finite(pairs):
     return law, [v for v, _ in exact]
 
 
+INDEX_CHOICES = [False]
+
+
 def _resolve(law, exact):
     """generator: yields the law unless it is a point mass; returns the exact value"""
     if law.is_point_mass():
@@ -213,6 +216,15 @@ def eval_rhs(r, st):
                 raise Inconclusive("state-dependent probabilities left [0,1]")
             raise RefRefuses("probabilities of a choice are negative or do not add up to 1")
         vals = [eval_expr(e, st) for e, _ in items]
+        if INDEX_CHOICES[0]:
+            # the program was parsed with the option that expands a choice into a drawn *index* and branches: the request is
+            # the law of the index (alternatives of probability 0 never occur), whatever values the alternatives have
+            pos = [(i, p) for i, p in enumerate(probs) if p > 0]
+            if len(pos) == 1:
+                return vals[pos[0][0]]
+            ilaw = FiniteLaw([(float(i), float(p)) for i, p in pos])
+            u = yield ilaw
+            return vals[pos[ilaw.outcome_index(u)][0]]
         law, exact = _finite(list(zip(vals, probs)))
         return (yield from _resolve(law, exact))
     if t == "draw":
@@ -229,7 +241,7 @@ def eval_rhs(r, st):
     return eval_expr(r, st)
 
 
-CTX = {"sample": 0, "iteration": -1, "target": None}   # where the interpreter is (read by the lock-step controller)
+CTX = {"sample": 0, "iteration": -1, "target": None, "listing": None}   # where the interpreter is (read by the lock-step controller)
 
 
 def exec_stmts(stmts, st, trace=None):
